@@ -148,9 +148,14 @@ class ABCARMPropertyGraph(ABCPropertyGraph):
                 for atype in [DelegationType.LABEL, DelegationType.CAPACITY]:
                     prop_field_name = self.DELEGATION_TYPE_TO_PROP[atype]
                     if delegations_by_node[node].get(atype, None) is None:
-                        # no delegation property of this type on the node, nothing to rewrite or unset
-                        continue
-                    ds = delegations_by_node[node][atype].return_delegations_for_id(del_id)
+                        # nothing was catalogued for this type: an absent property is left alone, a blank one
+                        # ('' or the Neo4j 'None' placeholder) is still removed from the ADM
+                        _, node_props = self.get_node_properties(node_id=node)
+                        if prop_field_name not in node_props:
+                            continue
+                        ds = None
+                    else:
+                        ds = delegations_by_node[node][atype].return_delegations_for_id(del_id)
                     # rewrite delegations
                     self._update_delegations_on_node(graph=delegations_info[del_id].graph, node_id=node,
                                                      prop_name=prop_field_name, prop_val=ds)
